@@ -803,4 +803,36 @@ theorem decimal_clean (k : Nat) : TAB ∉ decimal k ∧ LF ∉ decimal k := by
     · exact this.1 he
     · exact this.2 he
 
+/-! ## the writer with `delimiter=` / `columns=` (C07): the header never reaches the reader -/
+
+theorem universalNewlines_cons_ne (c : Char) (s : Str) (hc : c ≠ CR) (hs : s ≠ []) :
+    universalNewlines (c :: s) = c :: universalNewlines s := by
+  cases s with
+  | nil => exact absurd rfl hs
+  | cons d r => simp [universalNewlines, hc]
+
+theorem universalNewlines_line (h rest : Str) (hcr : CR ∉ h) :
+    universalNewlines (h ++ LF :: rest) = h ++ LF :: universalNewlines rest := by
+  induction h with
+  | nil =>
+    have hne : LF ≠ CR := by decide
+    cases rest with
+    | nil => simp [universalNewlines, hne]
+    | cons d r => simp [universalNewlines, hne]
+  | cons c h ih =>
+    have hc : c ≠ CR := fun e => hcr (by simp [e])
+    have hh : CR ∉ h := fun m => hcr (by simp [m])
+    rw [cons_append, universalNewlines_cons_ne c _ hc (by simp), ih hh]
+    rfl
+
+/-- the body lines of a file whose first line `hd` is free of LF and CR do not
+    depend on that line (the reader skips it, io.py:51) — whatever the other
+    lines contain. -/
+theorem bodyLines_unlines_cons (hd : Str) (ls : List Str) (h : LF ∉ hd ∧ CR ∉ hd) :
+    bodyLines (unlines (hd :: ls)) = linesKeepEnds (universalNewlines (unlines ls)) := by
+  unfold bodyLines fileLines
+  simp only [unlines]
+  rw [universalNewlines_line hd _ h.2, linesKeepEnds_line hd _ h.1]
+  rfl
+
 end Pyndl.Text
